@@ -1023,7 +1023,8 @@ func (p *Prog) outdentInvariant(fn *ssa.Function, in ssa.Instruction) (bool, str
 	for _, g := range dominatingGuards(in.Block()) {
 		ng := normGuard(g)
 		if bo, ok := ng.Cond.(*ssa.BinOp); ok && isFieldLoad(bo.X, "cnt", prettyT0) {
-			if k, ok := constInt(bo.Y); ok && ((bo.Op == token.GTR && k == 0 && ng.Pol) || (bo.Op == token.GEQ && k == 1 && ng.Pol) || (bo.Op == token.NEQ && k == 0 && ng.Pol)) {
+			if k, ok := constInt(bo.Y); ok && ((bo.Op == token.GTR && k == 0 && ng.Pol) || (bo.Op == token.GEQ && k == 1 && ng.Pol) || (bo.Op == token.NEQ && k == 0 && ng.Pol) ||
+				(bo.Op == token.LEQ && k == 0 && !ng.Pol) || (bo.Op == token.LSS && k == 1 && !ng.Pol) || (bo.Op == token.EQL && k == 0 && !ng.Pol)) {
 				guarded = true
 			}
 		}
@@ -1043,6 +1044,10 @@ func (p *Prog) outdentInvariant(fn *ssa.Function, in ssa.Instruction) (bool, str
 			fa, ok := st.Addr.(*ssa.FieldAddr)
 			if !ok || !types.Identical(derefType(fa.X.Type()), prettyT) {
 				if types.Identical(derefType(st.Addr.Type()), prettyT) {
+					// c := *p — a whole-value copy of another pretty into a fresh local carries the invariant with it
+					if ld, isLd := st.Val.(*ssa.UnOp); isLd && ld.Op == token.MUL && types.Identical(derefType(ld.X.Type()), prettyT) && rootAlloc(st.Addr) != nil {
+						return
+					}
 					problems = append(problems, "whole-struct store in "+p.Name(f))
 				}
 				return
@@ -1257,7 +1262,7 @@ func (p *Prog) tableConstIndex(fn *ssa.Function, in ssa.Instruction) (bool, stri
 	if !isK || k < 0 {
 		return false, ""
 	}
-	g := p.Globals["mxj.escapechars"]
+	g := p.Globals["mxj."+p.escapeTableVar()]
 	if g == nil || !p.stableGlobal(g) {
 		return false, ""
 	}
